@@ -831,3 +831,477 @@ Proof.
   - rewrite H. reflexivity.
   - destruct (try_from x); simpl; try reflexivity; rewrite (IH l e ls2 H); reflexivity.
 Qed.
+
+(* ------------------------------------------------------------------ *)
+(** * Totality: no panic site of the model is reachable *)
+
+(** [post r P]: [r] is not a panic, and if it is a value, the value satisfies [P]. *)
+Definition post {E A} (r : res E A) (P : A -> Prop) : Prop :=
+  match r with Ok a => P a | Err _ => True | ExitP _ => True | Panic _ => False end.
+
+Lemma post_bind : forall {E A B} (r : res E A) (f : A -> res E B) (P : A -> Prop) (Q : B -> Prop),
+  post r P -> (forall a, P a -> post (f a) Q) -> post (bind r f) Q.
+Proof. intros E A B [a|e|w|c] f P Q H HF; simpl in *; auto. Qed.
+
+Lemma post_map_err : forall {E F A} (g : E -> F) (r : res E A) (P : A -> Prop),
+  post r P -> post (map_err g r) P.
+Proof. intros E F A g [a|e|w|c] P H; simpl in *; auto. Qed.
+
+Lemma post_weaken : forall {E A} (r : res E A) (P Q : A -> Prop),
+  post r P -> (forall a, P a -> Q a) -> post r Q.
+Proof. intros E A [a|e|w|c] P Q H HF; simpl in *; auto. Qed.
+
+Definition any {A} : A -> Prop := fun _ => True.
+
+Ltac ifs := repeat match goal with |- context [if ?b then _ else _] => destruct b end.
+
+Lemma take_prefix_post : forall c, post (take_prefix c) any.
+Proof.
+  intros c. unfold take_prefix. destruct c as [|a r]; [exact I|].
+  destruct (a =? 48); [destruct r as [|b r']; [exact I|]|]; ifs; exact I.
+Qed.
+
+Lemma pi_inner_post : forall R (eoi : res verr (option Z)) sgn c3, post eoi any ->
+  post (match c3 with
+        | [] => eoi
+        | _ :: _ =>
+            match digit_loop R eoi c3 0 with
+            | LDone integer rest =>
+                match rest with
+                | [] => match sgn with
+                        | Some s => if in_i32 (integer * sign_val s)
+                                    then Ok (Some (integer * sign_val s)%Z) else Panic 2
+                        | None => Ok (Some integer)
+                        end
+                | _ :: _ => Panic 1
+                end
+            | LEarly r => r
+            end
+        end) any.
+Proof.
+  intros R eoi sgn c3 He. destruct c3 as [|c c3']; [exact He|].
+  destruct (digit_loop R eoi (c :: c3') 0) as [m rest|r] eqn:EL.
+  - assert (H0 : (0 <= 0 <= i32_max)%Z) by (unfold i32_max; lia).
+    destruct (digit_loop_done _ _ _ _ _ _ H0 EL) as (-> & _ & Hm).
+    destruct sgn as [s|]; [|exact I].
+    assert (Hin : in_i32 (m * sign_val s) = true).
+    { apply in_i32_iff. unfold i32_min, i32_max in *. destruct s; simpl; lia. }
+    rewrite Hin. exact I.
+  - destruct (digit_loop_early _ _ _ _ _ EL) as [-> | ->]; [exact He|exact I].
+Qed.
+
+Lemma pi_tail_post : forall fs R lz chars, post (pi_tail fs R lz chars) any.
+Proof.
+  intros fs R lz chars. unfold pi_tail. destruct (take_sign chars) as [ss c3].
+  destruct fs as [s1|]; destruct ss as [s2|]; try exact I.
+  - match goal with |- post (match c3 with [] => ?e | _ :: _ => _ end) any =>
+      assert (He : post e any) by (ifs; exact I); exact (pi_inner_post R e (Some s1) c3 He) end.
+  - match goal with |- post (match c3 with [] => ?e | _ :: _ => _ end) any =>
+      assert (He : post e any) by (ifs; exact I); exact (pi_inner_post R e (Some s2) c3 He) end.
+  - match goal with |- post (match c3 with [] => ?e | _ :: _ => _ end) any =>
+      assert (He : post e any) by (ifs; exact I); exact (pi_inner_post R e None c3 He) end.
+Qed.
+
+Lemma parse_integer_post : forall s rs, post (parse_integer s rs) any.
+Proof.
+  intros s rs. rewrite pi_unfold. destruct s as [|c s]; [exact I|].
+  destruct (take_sign (c :: s)) as [fs c1]. destruct (rs && is_none fs); [exact I|].
+  apply (post_bind _ _ any); [apply take_prefix_post|].
+  intros [p c2] _. destruct p; [apply pi_tail_post|exact I|destruct fs; exact I].
+Qed.
+
+Lemma as_i16_post : forall v, post (as_i16 v) any.
+Proof. intros v. unfold as_i16. ifs; exact I. Qed.
+Lemma as_u16_post : forall v, post (as_u16 v) any.
+Proof. intros v. unfold as_u16. ifs; exact I. Qed.
+Lemma as_u16_cast_post : forall v, post (as_u16_cast v) any.
+Proof.
+  intros v. unfold as_u16_cast. destruct (v <? 0)%Z; [|apply as_u16_post].
+  apply (post_bind _ _ any); [apply as_i16_post|]. intros; exact I.
+Qed.
+
+Lemma label_scan_spec : forall rest n, exists pre suf, rest = pre ++ suf /\ label_scan rest n = n + bytes pre.
+Proof.
+  induction rest as [|c rest IH]; intros n.
+  - exists [], []. split; [reflexivity|]. simpl. lia.
+  - simpl. destruct (can_contain c).
+    + destruct (IH (n + len_utf8 c)) as (pre & suf & -> & E). exists (c :: pre), suf.
+      split; [reflexivity|]. rewrite E. simpl. lia.
+    + exists [], (c :: rest). split; [reflexivity|]. simpl. lia.
+Qed.
+
+Lemma split_at_app : forall p r, split_at (p ++ r) (bytes p) = Some (p, r).
+Proof. intros p r. unfold split_at. rewrite take_bytes_app, drop_bytes_app. reflexivity. Qed.
+
+Lemma label_try_parse_post : forall s, post (label_try_parse s) any.
+Proof.
+  intros s. unfold label_try_parse. destruct s as [|c rest]; [exact I|].
+  destruct (negb (can_start_with c)); [exact I|].
+  destruct (label_scan_spec rest (len_utf8 c)) as (pre & suf & -> & ->).
+  change (c :: pre ++ suf) with ((c :: pre) ++ suf).
+  change (len_utf8 c + bytes pre) with (bytes (c :: pre)).
+  rewrite split_at_app. destruct suf as [|x suf]; [exact I|].
+  apply (post_bind _ _ any); [apply parse_integer_post|].
+  intros [o|] _; [|exact I]. apply (post_bind _ _ any); [apply as_i16_post|]. intros; exact I.
+Qed.
+
+Lemma register_try_parse_post : forall s, post (register_try_parse s) any.
+Proof.
+  intros s. unfold register_try_parse. destruct s as [|c [|d [|e r]]]; ifs; exact I.
+Qed.
+
+Lemma drop_bytes_one : forall c t, len_utf8 c = 1 -> drop_bytes (c :: t) 1 = Some t.
+Proof.
+  intros c t H. simpl. rewrite H. change (1 =? 0) with false. change (1 <=? 1) with true.
+  change (1 - 1) with 0. destruct t; reflexivity.
+Qed.
+
+Lemma pcoffset_try_parse_post : forall s, post (pcoffset_try_parse s) any.
+Proof.
+  intros s. unfold pcoffset_try_parse. destruct s as [|c t]; [exact I|].
+  destruct (N.eqb_spec c 94) as [->|]; simpl negb; cbv iota; [|exact I].
+  rewrite drop_bytes_one by reflexivity. destruct t as [|x t]; [exact I|].
+  apply (post_bind _ _ any); [apply parse_integer_post|].
+  intros [o|] _; [|exact I]. apply (post_bind _ _ any); [apply as_i16_post|]. intros; exact I.
+Qed.
+
+Lemma memory_location_try_parse_post : forall s, post (memory_location_try_parse s) any.
+Proof.
+  intros s. unfold memory_location_try_parse.
+  apply (post_bind _ _ any); [apply pcoffset_try_parse_post|]. intros [o|] _; [exact I|].
+  apply (post_bind _ _ any); [apply parse_integer_post|]. intros [v|] _.
+  - apply (post_bind _ _ any); [apply as_u16_post|]. intros; exact I.
+  - apply (post_bind _ _ any); [apply label_try_parse_post|]. intros [[n o]|] _; exact I.
+Qed.
+
+Lemma location_try_parse_post : forall s, post (location_try_parse s) any.
+Proof.
+  intros s. unfold location_try_parse.
+  apply (post_bind _ _ any); [apply register_try_parse_post|]. intros [r|] _; [exact I|].
+  apply (post_bind _ _ any); [apply memory_location_try_parse_post|]. intros; exact I.
+Qed.
+
+(** ** The argument iterator *)
+
+Lemma nodelim_app : forall a b, nodelim (a ++ b) <-> nodelim a /\ nodelim b.
+Proof. intros a b. unfold nodelim. rewrite forallb_app, andb_true_iff. tauto. Qed.
+
+Lemma nodelim_cons : forall c l, nodelim (c :: l) -> is_delim c = false /\ nodelim l.
+Proof.
+  intros c l H. unfold nodelim in H. simpl in H. apply andb_true_iff in H. destruct H as [H1 H2].
+  split; [|exact H2]. destruct (is_delim c); [discriminate|reflexivity].
+Qed.
+
+Lemma token_loop_false_spec : forall chars start len, nodelim chars ->
+  exists tok rest, chars = tok ++ rest /\ token_loop chars start len false = Some (start, len + bytes tok).
+Proof.
+  induction chars as [|c chars IH]; intros start len Hn.
+  - exists [], []. split; [reflexivity|]. simpl. f_equal. f_equal. lia.
+  - destruct (nodelim_cons _ _ Hn) as [Hc Hn']. simpl.
+    unfold is_delim in Hc. rewrite Hc. simpl andb.
+    destruct (N.eqb_spec c 32).
+    + exists [], (c :: chars). split; [reflexivity|]. simpl. f_equal. f_equal. lia.
+    + simpl orb. apply orb_false_iff in Hc. destruct Hc as [-> ->]. simpl orb. cbv iota.
+      destruct (IH start (len + len_utf8 c) Hn') as (tok & rest & -> & E).
+      exists (c :: tok), rest. split; [reflexivity|]. rewrite E. simpl. f_equal. f_equal. lia.
+Qed.
+
+Lemma token_loop_true_spec : forall chars start, nodelim chars ->
+  exists sp tok rest, chars = sp ++ tok ++ rest /\
+    token_loop chars start 0 true = Some (start + bytes sp, bytes tok) /\
+    (forall c r, chars = c :: r -> c <> 32 -> tok <> []).
+Proof.
+  induction chars as [|c chars IH]; intros start Hn.
+  - exists [], [], []. split; [reflexivity|]. split; [|intros; discriminate]. simpl. f_equal. f_equal. lia.
+  - destruct (nodelim_cons _ _ Hn) as [Hc Hn']. simpl.
+    unfold is_delim in Hc. rewrite Hc. simpl andb.
+    destruct (N.eqb_spec c 32).
+    + destruct (IH (start + len_utf8 c) Hn') as (sp & tok & rest & -> & E & _).
+      exists (c :: sp), tok, rest. split; [reflexivity|]. split.
+      * rewrite E. simpl. f_equal. f_equal. lia.
+      * intros c' r' E' Hc'. inversion E'; subst. contradiction.
+    + simpl orb. apply orb_false_iff in Hc. destruct Hc as [-> ->]. simpl orb. cbv iota.
+      destruct (token_loop_false_spec chars start (0 + len_utf8 c) Hn') as (tok & rest & -> & E).
+      exists [], (c :: tok), rest. split; [reflexivity|]. split.
+      * rewrite E. simpl. f_equal. f_equal; lia.
+      * intros; discriminate.
+Qed.
+
+Definition AWf (a : arguments) : Prop :=
+  nodelim (buffer a) /\ exists p r, buffer a = p ++ r /\ cursor a = bytes p.
+
+Lemma next_token_str_spec : forall E a p r,
+  nodelim (buffer a) -> buffer a = p ++ r -> cursor a = bytes p ->
+  exists t a', @next_token_str E a = Ok (t, a') /\ AWf a' /\ arg_count a' = arg_count a /\
+               buffer a' = buffer a /\
+               (forall c r', r = c :: r' -> c <> 32 -> t <> None) /\
+               (r = [] -> t = None /\ a' = a).
+Proof.
+  intros E a p r Hn Hb Hc. unfold next_token_str. rewrite Hc.
+  replace (drop_bytes (buffer a) (bytes p)) with (Some r) by (rewrite Hb; symmetry; apply drop_bytes_app).
+  assert (Hnr : nodelim r). { rewrite Hb in Hn. apply nodelim_app in Hn. tauto. }
+  destruct (token_loop_true_spec r (bytes p) Hnr) as (sp & tok & rest & Er & -> & Hne).
+  destruct (N.eqb_spec (bytes p + bytes sp) (bytes p + bytes sp + bytes tok)) as [Heq|Hneq].
+  - assert (tok = []) by (apply bytes_zero; lia). subst tok.
+    exists None, a. split; [reflexivity|]. split.
+    { split; [exact Hn|]. exists p, r. auto. }
+    split; [reflexivity|]. split; [reflexivity|]. split.
+    + intros c r' E' Hc'. exfalso. exact (Hne c r' E' Hc' eq_refl).
+    + intros _. split; reflexivity.
+  - assert (Hs : slice (buffer a) (bytes p + bytes sp) (bytes p + bytes sp + bytes tok) = Some tok).
+    { rewrite Hb, Er. replace (p ++ sp ++ tok ++ rest) with ((p ++ sp) ++ tok ++ rest) by (rewrite <- app_assoc; reflexivity).
+      rewrite <- bytes_app. apply slice_app. }
+    rewrite Hs.
+    exists (Some tok), (mkArgs (buffer a) (bytes p + bytes sp + bytes tok) (arg_count a)).
+    split; [reflexivity|]. split.
+    { split; [exact Hn|]. exists (p ++ sp ++ tok), rest. cbn [buffer cursor]. split.
+      - rewrite Hb, Er, <- !app_assoc. reflexivity.
+      - rewrite !bytes_app. lia. }
+    split; [reflexivity|]. split; [reflexivity|]. split; [intros; discriminate|].
+    intros E0. subst r. destruct sp; destruct tok; try discriminate. simpl in Hneq. lia.
+Qed.
+
+Lemma next_token_str_post : forall E a, AWf a ->
+  post (@next_token_str E a) (fun ta => AWf (snd ta) /\ arg_count (snd ta) = arg_count a).
+Proof.
+  intros E a [Hn (p & r & Hb & Hc)].
+  destruct (next_token_str_spec E a p r Hn Hb Hc) as (t & a' & -> & Hw & Hcount & _).
+  simpl. auto.
+Qed.
+
+Lemma next_argument_str_post : forall E a, AWf a -> arg_count a < 255 ->
+  post (@next_argument_str E a) (fun ta => AWf (snd ta) /\ arg_count (snd ta) <= arg_count a + 1).
+Proof.
+  intros E a Hw Hlt. unfold next_argument_str.
+  apply (post_bind _ _ _ _ (next_token_str_post E a Hw)).
+  intros [t a'] [Hw' Hc']. simpl in *. destruct t as [tok|]; simpl.
+  - destruct (N.leb_spec (arg_count a' + 1) 255); [|lia]. simpl. split; [|lia].
+    destruct Hw' as [Hn Hp]. split; simpl; assumption.
+  - split; [exact Hw'|lia].
+Qed.
+
+Lemma check_naive_type_post : forall acc s, post (check_naive_type acc s) any.
+Proof. intros. unfold check_naive_type. destruct (naive_try_from s); [|exact I]. ifs; exact I. Qed.
+
+Definition arg_post {A} (a : arguments) (xa : A * arguments) : Prop :=
+  AWf (snd xa) /\ arg_count (snd xa) <= arg_count a + 1.
+
+Lemma next_integer_or_post : forall a d, AWf a -> arg_count a < 255 -> post d any ->
+  post (next_integer_or a d) (arg_post a).
+Proof.
+  intros a d Hw Hlt Hd. unfold next_integer_or.
+  apply (post_bind _ _ _ _ (next_argument_str_post aerr a Hw Hlt)).
+  intros [t a'] [Hw' Hc']. simpl in *. destruct t as [tok|].
+  - apply (post_bind _ _ any); [apply check_naive_type_post|]. intros _ _.
+    apply (post_bind _ _ any); [apply post_map_err, parse_integer_post|]. intros [v|] _; [|exact I].
+    apply (post_bind _ _ any); [apply post_map_err, as_u16_cast_post|]. intros x _.
+    split; assumption.
+  - apply (post_bind _ _ any); [exact Hd|]. intros x _. split; assumption.
+Qed.
+
+Lemma next_memory_location_or_post : forall a d, AWf a -> arg_count a < 255 -> post d any ->
+  post (next_memory_location_or a d) (arg_post a).
+Proof.
+  intros a d Hw Hlt Hd. unfold next_memory_location_or.
+  apply (post_bind _ _ _ _ (next_argument_str_post aerr a Hw Hlt)).
+  intros [t a'] [Hw' Hc']. simpl in *. destruct t as [tok|].
+  - apply (post_bind _ _ any); [apply check_naive_type_post|]. intros _ _.
+    apply (post_bind _ _ any); [apply post_map_err, memory_location_try_parse_post|].
+    intros [m|] _; [|exact I]. split; assumption.
+  - apply (post_bind _ _ any); [exact Hd|]. intros x _. split; assumption.
+Qed.
+
+Lemma next_location_or_post : forall a d, AWf a -> arg_count a < 255 -> post d any ->
+  post (next_location_or a d) (arg_post a).
+Proof.
+  intros a d Hw Hlt Hd. unfold next_location_or.
+  apply (post_bind _ _ _ _ (next_argument_str_post aerr a Hw Hlt)).
+  intros [t a'] [Hw' Hc']. simpl in *. destruct t as [tok|].
+  - apply (post_bind _ _ any); [apply post_map_err, location_try_parse_post|].
+    intros [m|] _; [|exact I]. split; assumption.
+  - apply (post_bind _ _ any); [exact Hd|]. intros x _. split; assumption.
+Qed.
+
+Lemma finish_post : forall a n c, AWf a -> arg_count a < 254 -> post (finish a n c) any.
+Proof.
+  intros a n c Hw Hlt. unfold finish. destruct (N.leb_spec (arg_count a + 1) 255); [|lia].
+  apply (post_bind _ _ any); [|intros; exact I]. unfold expect_end.
+  assert (Hlt' : arg_count a < 255) by lia.
+  apply (post_bind _ _ _ _ (next_argument_str_post aerr a Hw Hlt')).
+  intros [t a'] _. destruct t; exact I.
+Qed.
+
+Lemma get_rest_then_end : forall a, AWf a ->
+  exists s a', @get_rest aerr a = Ok (s, a') /\ expect_end a' 0 0 = Ok (tt, a').
+Proof.
+  intros a [Hn (p & r & Hb & Hc)]. unfold get_rest. rewrite Hb, Hc, drop_bytes_app.
+  eexists. eexists. split; [reflexivity|]. rewrite <- Hb.
+  set (a' := mkArgs (buffer a) (bytes (buffer a)) (arg_count a)).
+  destruct (next_token_str_spec aerr a' (buffer a) [] Hn) as (t & a'' & E & _ & _ & _ & _ & Hnone).
+  { simpl. rewrite app_nil_r. reflexivity. } { reflexivity. }
+  destruct (Hnone eq_refl) as [-> ->]. unfold expect_end, next_argument_str. rewrite E. reflexivity.
+Qed.
+
+Lemma parse_arguments_post : forall name a, AWf a -> arg_count a = 0 ->
+  post (parse_arguments name a) any.
+Proof.
+  intros name a Hw H0.
+  assert (H255 : arg_count a < 255) by lia. assert (H254 : arg_count a < 254) by lia.
+  assert (Hfin : forall (a' : arguments) n c, AWf a' -> arg_count a' <= 2 -> post (finish a' n c) any).
+  { intros a' n c Hw' Hc'. apply finish_post; [exact Hw'|lia]. }
+  unfold parse_arguments, next_location_or_default, next_location, next_memory_location,
+    next_memory_location_or_default, next_integer, next_positive_integer_or_default.
+  destruct name; try exact I; try (apply finish_post; assumption).
+  - (* step into *)
+    apply (post_bind _ _ (arg_post a) any).
+    + eapply post_bind; [apply next_integer_or_post; [exact Hw|exact H255|exact I]|].
+      intros [v a'] Hp. exact Hp.
+    + intros [v a'] [Hw' Hc']. simpl in *. apply Hfin; [exact Hw'|lia].
+  - (* print *)
+    eapply post_bind; [apply next_location_or_post; [exact Hw|exact H255|exact I]|].
+    intros [v a'] [Hw' Hc']. simpl in *. apply Hfin; [exact Hw'|lia].
+  - (* move *)
+    eapply post_bind; [apply next_location_or_post; [exact Hw|exact H255|exact I]|].
+    intros [l a1] [Hw1 Hc1]. simpl in *.
+    assert (H1 : arg_count a1 < 255) by lia.
+    eapply post_bind; [apply next_integer_or_post; [exact Hw1|exact H1|exact I]|].
+    intros [v a2] [Hw2 Hc2]. simpl in *. apply Hfin; [exact Hw2|lia].
+  - eapply post_bind; [apply next_memory_location_or_post; [exact Hw|exact H255|exact I]|].
+    intros [v a'] [Hw' Hc']. simpl in *. apply Hfin; [exact Hw'|lia].
+  - eapply post_bind; [apply next_memory_location_or_post; [exact Hw|exact H255|exact I]|].
+    intros [v a'] [Hw' Hc']. simpl in *. apply Hfin; [exact Hw'|lia].
+  - (* eval *)
+    destruct (get_rest_then_end a Hw) as (s & a' & -> & E). simpl. destruct s; [exact I|].
+    rewrite E. exact I.
+  - (* echo *)
+    destruct (get_rest_then_end a Hw) as (s & a' & -> & E). simpl. destruct s; [exact I|].
+    rewrite E. exact I.
+  - eapply post_bind; [apply next_memory_location_or_post; [exact Hw|exact H255|exact I]|].
+    intros [v a'] [Hw' Hc']. simpl in *. apply Hfin; [exact Hw'|lia].
+  - eapply post_bind; [apply next_memory_location_or_post; [exact Hw|exact H255|exact I]|].
+    intros [v a'] [Hw' Hc']. simpl in *. apply Hfin; [exact Hw'|lia].
+Qed.
+
+Definition name_post (na : cname * arguments) : Prop := AWf (snd na) /\ arg_count (snd na) = 0.
+
+Lemma name_matches_with_subcommand_post : forall a cn cmds parent subs dflt,
+  AWf a -> arg_count a = 0 ->
+  post (name_matches_with_subcommand a cn cmds parent subs dflt)
+       (fun oa => AWf (snd oa) /\ arg_count (snd oa) = 0).
+Proof.
+  intros a cn cmds parent subs dflt Hw H0. unfold name_matches_with_subcommand.
+  destruct (negb (name_matches cn cmds)); [simpl; auto|].
+  apply (post_bind _ _ _ _ (next_token_str_post cerr a Hw)).
+  intros [t a'] [Hw' Hc']. simpl in *. destruct t as [sub|].
+  - destruct (find_name_match sub subs); simpl; [split; [assumption|lia]|exact I].
+  - destruct dflt; simpl; [split; [assumption|lia]|exact I].
+Qed.
+
+Lemma get_command_name_post : forall c line, nodelim (c :: line) -> c <> 32 ->
+  post (get_command_name (arguments_from (c :: line))) name_post.
+Proof.
+  intros c line Hn Hc. unfold get_command_name. simpl cursor. change (0 =? 0) with true. simpl negb. cbv iota.
+  set (a := arguments_from (c :: line)).
+  destruct (next_token_str_spec cerr a [] (c :: line) Hn eq_refl eq_refl)
+    as (t & a1 & -> & Hw1 & Hc1 & _ & Hsome & _).
+  simpl bind. cbv iota beta. destruct t as [cn|]; [|exfalso; exact (Hsome c line eq_refl Hc eq_refl)].
+  assert (H10 : arg_count a1 = 0) by (rewrite Hc1; reflexivity).
+  apply (post_bind _ _ _ _ (name_matches_with_subcommand_post a1 cn _ _ _ _ Hw1 H10)).
+  intros [s a2] [Hw2 Hc2]. simpl in *. destruct s as [x|]; [split; assumption|].
+  apply (post_bind _ _ _ _ (name_matches_with_subcommand_post a2 cn _ _ _ _ Hw2 Hc2)).
+  intros [b a3] [Hw3 Hc3]. simpl in *. destruct b as [x|]; [split; assumption|].
+  destruct (find_name_match cn COMMANDS); [split; assumption|].
+  destruct (leqb cn (str "sudo")); exact I.
+Qed.
+
+Lemma try_from_post : forall c line, nodelim (c :: line) -> c <> 32 -> post (try_from (c :: line)) any.
+Proof.
+  intros c line Hn Hc. unfold try_from.
+  apply (post_bind _ _ _ _ (get_command_name_post c line Hn Hc)).
+  intros [name a] [Hw H0]. simpl in *. apply post_map_err. apply parse_arguments_post; assumption.
+Qed.
+
+(** ** Trimming *)
+
+Lemma drop_while_suffix : forall p l, exists a, l = a ++ drop_while p l.
+Proof.
+  intros p. induction l as [|c l IH]; [exists []; reflexivity|].
+  simpl. destruct (p c).
+  - destruct IH as [a E]. exists (c :: a). simpl. rewrite <- E. reflexivity.
+  - exists []. reflexivity.
+Qed.
+
+Lemma drop_while_head : forall p l c r, drop_while p l = c :: r -> p c = false.
+Proof.
+  intros p. induction l as [|x l IH]; intros c r H; [discriminate|].
+  simpl in H. destruct (p x) eqn:E; [eapply IH; exact H|]. inversion H; subst. exact E.
+Qed.
+
+Lemma trim_shape : forall l, exists a b, l = a ++ trim l ++ b.
+Proof.
+  intros l. unfold trim.
+  destruct (drop_while_suffix is_white l) as [a Ea].
+  destruct (drop_while_suffix is_white (rev (drop_while is_white l))) as [b Eb].
+  exists a, (rev b). rewrite Ea at 1. f_equal.
+  rewrite <- rev_app_distr, <- Eb, rev_involutive. reflexivity.
+Qed.
+
+Lemma trim_head : forall l c r, trim l = c :: r -> is_white c = false.
+Proof.
+  intros l c r H. unfold trim in H.
+  destruct (drop_while_suffix is_white (rev (drop_while is_white l))) as [b Eb].
+  set (x := drop_while is_white l) in *. set (y := drop_while is_white (rev x)) in *.
+  assert (Ex : x = rev y ++ rev b). { rewrite <- rev_app_distr, <- Eb, rev_involutive. reflexivity. }
+  rewrite H in Ex. simpl in Ex. apply (drop_while_head is_white l c (r ++ rev b)). exact Ex.
+Qed.
+
+Lemma trim_nodelim : forall l, nodelim l -> nodelim (trim l).
+Proof.
+  intros l H. destruct (trim_shape l) as (a & b & E). rewrite E in H.
+  apply nodelim_app in H. destruct H as [_ H]. apply nodelim_app in H. tauto.
+Qed.
+
+Theorem parse_line_total : forall raw, nodelim raw -> forall w, parse_line raw <> Some (Panic w).
+Proof.
+  intros raw Hn w. unfold parse_line. destruct (trim raw) as [|c t] eqn:E; [discriminate|].
+  assert (Hc : c <> 32). { intros ->. apply trim_head in E. discriminate. }
+  assert (Hn' : nodelim (c :: t)). { rewrite <- E. apply trim_nodelim. exact Hn. }
+  pose proof (try_from_post c t Hn' Hc) as Hp. intros Heq. inversion Heq as [Heq']. rewrite Heq' in Hp. exact Hp.
+Qed.
+
+(** ** Whole sessions *)
+
+Lemma split_aux_nodelim : forall s cur, nodelim cur -> Forall nodelim (split_aux s cur).
+Proof.
+  assert (Hrev : forall l, nodelim l -> nodelim (rev l)).
+  { intros l H. unfold nodelim in *. rewrite forallb_forall in *. intros x Hx. apply H. apply in_rev. exact Hx. }
+  induction s as [|c s IH]; intros cur Hc; simpl.
+  - destruct cur; [constructor|]. constructor; [apply Hrev; exact Hc|constructor].
+  - destruct (is_delim c) eqn:E.
+    + constructor; [apply Hrev; exact Hc|]. apply IH. reflexivity.
+    + apply IH. unfold nodelim in *. simpl. rewrite E. exact Hc.
+Qed.
+
+Lemma run_raw_total : forall ls, Forall nodelim ls ->
+  forall e, In e (run_raw ls) -> (forall w, e <> EvPanic w) /\ e <> EvOutOfFuel.
+Proof.
+  induction ls as [|raw ls IH]; intros HF e Hin; [contradiction|].
+  inversion HF as [|? ? Hraw Hls]; subst. simpl in Hin.
+  pose proof (parse_line_total raw Hraw) as Htot.
+  destruct (parse_line raw) as [[c|er|w|x]|].
+  - destruct Hin as [<-|Hin]; [split; [intros; discriminate|discriminate]|apply IH; assumption].
+  - destruct Hin as [<-|Hin]; [split; [intros; discriminate|discriminate]|apply IH; assumption].
+  - exfalso. exact (Htot w eq_refl).
+  - destruct Hin as [<-|[]]. split; [intros; discriminate|discriminate].
+  - apply IH; assumption.
+Qed.
+
+(** No script, however it is delivered, makes the command reader or the parser panic (and the
+    model's fuel is never exhausted). *)
+Theorem session_total : forall arg stdin e, In e (session arg stdin) ->
+  (forall w, e <> EvPanic w) /\ e <> EvOutOfFuel.
+Proof.
+  intros arg stdin e Hin. rewrite session_raw in Hin.
+  apply (run_raw_total _) in Hin; [exact Hin|].
+  apply Forall_app. split; apply split_aux_nodelim; reflexivity.
+Qed.
